@@ -22,6 +22,7 @@ import shutil
 import subprocess
 import sys
 import tempfile
+import threading
 import time
 import traceback
 
@@ -242,10 +243,13 @@ class Scratch(object):
         os.makedirs(base, exist_ok=True)
         self.dir = tempfile.mkdtemp(prefix="verif-run-", dir=base)
         self.n = 0
+        self.lock = threading.Lock()
 
     def path(self, name):
-        self.n += 1
-        return os.path.join(self.dir, "%04d-%s" % (self.n, name))
+        with self.lock:
+            self.n += 1
+            n = self.n
+        return os.path.join(self.dir, "%04d-%s" % (n, name))
 
     def close(self):
         shutil.rmtree(self.dir, ignore_errors=True)
@@ -535,6 +539,7 @@ def _main(args, seed, scratch):
     by_class = {}
     for it in agg["violations"]:
         by_class.setdefault(vkey(it["violation"]), []).append(it)
+    todo = []
     for k in sorted(by_class):
         it = sorted(by_class[k], key=lambda x: len(json.dumps(x["case"])))[0]
         f = match_finding(findings, prop, it["violation"])
@@ -542,7 +547,14 @@ def _main(args, seed, scratch):
             known_hit[f["id"]] = known_hit.get(f["id"], 0) + agg["violation_counts"].get(k, 0)
             continue
         hs_found = [int(it["hashseed"])] if str(it.get("hashseed") or "").isdigit() else None
-        path, mini = minimise_and_publish(check, it, seed, scratch, hashseeds=hs_found)
+        todo.append((k, it, hs_found))
+    # every class is minimised and replayed in interpreters of its own: side by side (a change that breaks a property
+    # often shows under a dozen class names at once)
+    from concurrent.futures import ThreadPoolExecutor
+    with ThreadPoolExecutor(max_workers=8) as tpe:
+        futs = [(k, tpe.submit(minimise_and_publish, check, it, seed, scratch, hs_found)) for k, it, hs_found in todo]
+        done = [(k, fu.result()) for k, fu in futs]
+    for k, (path, mini) in done:
         f = match_finding(findings, prop, mini["violation"])
         if f:
             known_hit[f["id"]] = known_hit.get(f["id"], 0) + agg["violation_counts"].get(k, 0)
